@@ -3,10 +3,10 @@
 package main
 
 import (
+	"math/rand"
 	"sort"
 
 	"github.com/Azbesciak/RealDecisionMaker/lib/model"
-	"github.com/Azbesciak/RealDecisionMaker/lib/utils"
 )
 
 // (id type) | (id type min max)
@@ -113,8 +113,10 @@ func prepareDMP(dm *model.DecisionMaker) (*model.DecisionMakingParams, string) {
 }
 
 // draws returns the first k numbers of the generator every seeded component of the service uses.
+// The streams handed to the model come straight from math/rand (what the documentation promises: a seeded
+// generator per request seed), NOT from the repo's generator helper — so that helper is itself under test.
 func draws(seed int64, k int) []float64 {
-	g := utils.RandomBasedSeedValueGenerator(seed)
+	g := rand.New(rand.NewSource(seed)).Float64
 	out := make([]float64, k)
 	for i := range out {
 		out[i] = g()
@@ -122,4 +124,4 @@ func draws(seed int64, k int) []float64 {
 	return out
 }
 
-func drawsGen(seed int64) func() float64 { return utils.RandomBasedSeedValueGenerator(seed) }
+func drawsGen(seed int64) func() float64 { return rand.New(rand.NewSource(seed)).Float64 }
